@@ -1,6 +1,7 @@
 import SynRBLModel.Driver.JsonUtil
 import SynRBLModel.Driver.Ops.Core
 import SynRBLModel.Model.Pipeline
+import SynRBLModel.Model.Batching
 /-! Driver ops of the row state machine. Oracle answers recorded from the real run travel with the op. -/
 namespace SynRBL.Drv.Pipeline
 open Lean SynRBL.Drv
@@ -69,9 +70,17 @@ def opPipelineRow (j : Json) : R Json := do
     ("final", rowJ (runRow O cfg input)),
     ("stats", statsJ (rowStats O cfg input))]
 
+/-- `DataLoader` slicing (including the trailing empty batch) -/
+def opChunks (j : Json) : R Json := do
+  let xs ← intList (← field j "xs")
+  let n ← natF j "n"
+  return Json.mkObj [("chunks", listJ (listJ intJ) (chunks n (xs.length + 1) xs)),
+    ("batches", listJ (listJ intJ) (batchesOf n xs))]
+
 def dispatch? (op : String) (j : Json) : Option (R Json) :=
   match op with
   | "pipelineRow" => some (opPipelineRow j)
+  | "chunks" => some (opChunks j)
   | _ => none
 
 end SynRBL.Drv.Pipeline
